@@ -131,6 +131,12 @@ def scenarios(tier):
              (Literal("true", XSD_BOOLEAN), True), (Literal("0", XSD_BOOLEAN), False), (Literal("abc", XSD_STRING), "abc"),
              (Literal("http://x/y", XSD_ANYURI), Identifier("http://x/y")), (Literal(T1.isoformat(), XSD_DATETIME), T1),
              (Literal("plain"), "plain")]
+    # the same datatypes named through another prefix for the XML Schema namespace (what a reader hands over when a
+    # text declares xs: or xsd1: for it): a datatype is its URI, not its spelling
+    XS = Namespace("xs", XSD_INT.namespace.uri)
+    pairs += [(Literal("42", XS["int"]), 42), (Literal("1.5", XS["double"]), 1.5), (Literal("true", XS["boolean"]), True),
+              (Literal("abc", XS["string"]), "abc"), (Literal("http://x/y", XS["anyURI"]), Identifier("http://x/y")),
+              (Literal(T1.isoformat(), XS["dateTime"]), T1)]
     for i, (lit, native) in enumerate(pairs):
         for via in ("ctor", "add-dict", "add-list"):
             def run(lit=lit, native=native, via=via):
